@@ -129,6 +129,64 @@ __CPROVER_ensures(!(g_child_sig > 0 && !(__CPROVER_old(fiber->child)->flags & (1
 __CPROVER_ensures(__CPROVER_old(fiber->child) == (void *)0 ==> g_child_sig == -1)
 ;
 
+/* ---- janet_continue / janet_continue_signal: eligibility check + run ------------------------------------------------------ */
+#define FIB_UNTOUCHED(f) \
+  ((f)->frame == __CPROVER_old((f)->frame) && (f)->stackstart == __CPROVER_old((f)->stackstart) && \
+   (f)->stacktop == __CPROVER_old((f)->stacktop) && (f)->capacity == __CPROVER_old((f)->capacity) && \
+   (f)->maxstack == __CPROVER_old((f)->maxstack) && (f)->data == __CPROVER_old((f)->data) && \
+   (f)->child == __CPROVER_old((f)->child) && (f)->env == __CPROVER_old((f)->env) && \
+   JBITS((f)->last_value) == __CPROVER_old(JBITS((f)->last_value)) && (f)->gc.flags == __CPROVER_old((f)->gc.flags) && \
+   FIB_OTHER((f)->flags) == FIB_OTHER(__CPROVER_old((f)->flags)))
+
+#define CONTINUE_CONTRACT \
+WF_FIBER_REQUIRES(fiber) \
+__CPROVER_requires(__CPROVER_is_fresh(out, sizeof(Janet))) \
+__CPROVER_requires(janet_vm.stackn >= 0) \
+__CPROVER_requires(g_ran == 0 && g_child_sig == -1) \
+__CPROVER_requires(__CPROVER_pointer_equals(g_fiber, fiber)) \
+__CPROVER_assigns(*fiber, *out, FIB_VM, g_ran, g_child_ran, g_child_sig, g_child_val, g_child_last) \
+__CPROVER_assigns(fiber->child != (void *)0: *(fiber->child)) \
+__CPROVER_assigns(fiber->data[fiber->frame]) \
+__CPROVER_ensures(IS_SIGNAL(__CPROVER_return_value)) \
+VM_REGS_RESTORED \
+/* a finished fiber can never be resumed again: error signal, the VM is never entered, and it stays finished */ \
+__CPROVER_ensures(FIB_FINISHED(FIB_ST(__CPROVER_old(fiber->flags))) ==> \
+                  (__CPROVER_return_value == JANET_SIGNAL_ERROR && g_ran == 0 && FIB_FINISHED(FIB_ST(fiber->flags)))) \
+/* every refusal (not new/suspended; recursion limit; root fiber): error signal, VM not entered on this fiber or its child, \
+ * frames / stack / child / env / last value untouched, status unchanged except ERROR at the recursion limit */ \
+__CPROVER_ensures(!ACCEPTED_OLD(fiber) ==> (__CPROVER_return_value == JANET_SIGNAL_ERROR && g_ran == 0 && g_child_sig == -1 && FIB_UNTOUCHED(fiber))) \
+__CPROVER_ensures(!ACCEPTED_OLD(fiber) ==> (FIB_ST(fiber->flags) == FIB_ST(__CPROVER_old(fiber->flags)) || \
+                  (__CPROVER_old(janet_vm.stackn) >= JANET_RECURSION_GUARD && FIB_ST(fiber->flags) == JANET_STATUS_ERROR))) \
+/* an accepted resume: status on return equals the returned signal */ \
+__CPROVER_ensures(ACCEPTED_OLD(fiber) ==> FIB_ST(fiber->flags) == (int) __CPROVER_return_value)
+
+JanetSignal fib_continue_c(JanetFiber *fiber, Janet in, Janet *out)
+CONTINUE_CONTRACT
+;
+/* bound of the cancel unit: the chain of pending children below the fiber has at most 2 links */
+JanetSignal fib_continue_signal_c(JanetFiber *fiber, Janet in, Janet *out, JanetSignal sig)
+__CPROVER_requires(IS_SIGNAL(sig))
+CONTINUE_CONTRACT
+__CPROVER_requires(fiber->child == (void *)0 || fiber->child->child == (void *)0 ||
+                   (__CPROVER_is_fresh(fiber->child->child, sizeof(JanetFiber)) && fiber->child->child->child == (void *)0))
+__CPROVER_assigns(fiber->child != (void *)0 && fiber->child->child != (void *)0: fiber->child->child->flags, fiber->child->child->gc.flags)
+;
+
+void h_continue(void) {
+  JanetFiber *f; Janet *out; Janet in;
+  JanetSignal s = janet_continue(f, in, out);
+  REACH("janet_continue returns");
+  if (g_ran) REACH("janet_continue: accepted and run");
+  if (!g_ran && g_child_sig == -1) REACH("janet_continue: refused");
+}
+void h_continue_signal(void) {
+  JanetFiber *f; Janet *out; Janet in;
+  JanetSignal s = janet_continue_signal(f, in, out, (JanetSignal) nd_int());
+  REACH("janet_continue_signal returns");
+  if (g_ran) REACH("janet_continue_signal: accepted and run");
+  if (!g_ran && g_child_sig == -1) REACH("janet_continue_signal: refused");
+}
+
 void h_no_check(void) {
   JanetFiber *f; Janet *out; Janet in;
   JanetSignal s = janet_continue_no_check(f, in, out);
